@@ -6,6 +6,7 @@ import EoVerif.Spec.WellFormed
 import EoVerif.Spec.WellFormedTypes
 import EoVerif.Spec.WellFormedTyped
 import EoVerif.Props.C02
+import EoVerif.Props.C03b
 /-! Driver commands for the generator model (C01–C03, C15–C19). -/
 namespace Driver
 open EoVerif EoVerif.Gen
@@ -133,7 +134,7 @@ def handleGen (gs : GenState) : List String → GenState × String
     let roots := gs.files.map (·.root)
     let ctxOk := gs.files.all (fun f => (f.root.findall "struct" ++ f.root.findall "packet").all Spec.wfClass)
     (gs, s!"ok context {b01 ctxOk} decls {b01 (Spec.declsWF roots)} packets {b01 (Spec.packetsWF (gs.files.map (fun f => (f.dir, f.root))))}" ++
-         s!" typed {b01 (Spec.typedSpec roots)} fragment {b01 (Fragment gs.files)}")
+         s!" typed {b01 (Spec.typedSpec roots)} fragmentde {b01 (FragmentDe gs.files)} fragment {b01 (Fragment gs.files)}")
   | ["files"] =>
     match gs.out with
     | none => (gs, "no-spec")
